@@ -71,3 +71,7 @@ Fixpoint pairs_eqb (a b : list (nat * nat)) : bool :=
   end.
 Definition chk_draw_aligned (c : nat * list (draw_batch nat nat) * list (nat * nat)) : bool :=
   let '(n, bs, obs) := c in pairs_eqb (draw_aligned n bs) obs.
+(* compact form used by the harness: candidate ids and row ids of a batch are the consecutive numbers start, start+1, ... *)
+Definition chk_draw_aligned_seq (c : nat * list (nat * list bool) * list (nat * nat)) : bool :=
+  let '(n, bs, obs) := c in
+  chk_draw_aligned (n, map (fun b => (snd b, seq (fst b) (length (snd b)), seq (fst b) (length (snd b)))) bs, obs).
